@@ -41,10 +41,10 @@ static void lattice_transform(TSGT *s, TypeOneDRule rule, int ai, int k){
 
 //@ lemma lemma_roundtrip
 void lemma_roundtrip(int rule_i, int ai, int k, int xi)
-__CPROVER_requires(rule_i >= rule_none && rule_i <= rule_fourier)
+__CPROVER_requires(rule_i >= rule_none && rule_i <= rule_fourier && FAMILY(rule_i))
 __CPROVER_requires(-(1 << LB) <= ai && ai <= (1 << LB) && 0 <= k && k <= 10 && -(1 << LX) <= xi && xi <= (1 << LX))
 __CPROVER_ensures(1)
-__CPROVER_assigns()
+__CPROVER_assigns(tsg_exc)
 {
   TypeOneDRule rule = (TypeOneDRule) rule_i;
   TSGT s; lattice_transform(&s, rule, ai, k);
@@ -77,10 +77,10 @@ void h_lemma_roundtrip(void){ int a_rule = nondet_int(), a_a = nondet_int(), a_k
 
 //@ lemma lemma_qscale
 void lemma_qscale(int rule_i, int a0, int k0, int a1, int k1)
-__CPROVER_requires(rule_i >= rule_none && rule_i <= rule_fourier)
+__CPROVER_requires(rule_i >= rule_none && rule_i <= rule_fourier && FAMILY(rule_i))
 __CPROVER_requires(-(1 << LB) <= a0 && a0 <= (1 << LB) && 0 <= k0 && k0 <= 10 && -(1 << LB) <= a1 && a1 <= (1 << LB) && 0 <= k1 && k1 <= 10)
 __CPROVER_ensures(1)
-__CPROVER_assigns()
+__CPROVER_assigns(g_npow, __CPROVER_object_whole(g_pow_base), __CPROVER_object_whole(g_pow_exp))
 {
   TypeOneDRule rule = (TypeOneDRule) rule_i;
   TSGT s; s.dims = 2; s.rule = rule; s.domain_transform_a_size = 2; s.domain_transform_b_size = 2; s.conformal_asin_power_size = 0;
